@@ -446,7 +446,9 @@ def same_value(a, b):
 
 def table_invariant(track):
     """representation invariant of the feature table; returns None or a message"""
-    dico = track._Track__analyticalFeaturesDico
+    dico = getattr(track, '_Track__analyticalFeaturesDico', None)
+    if not isinstance(dico, dict) or (track.size() and not isinstance(getattr(track.getObs(0), 'features', None), list)):
+        raise core.Unsupported('the feature table (anchored state _Track__analyticalFeaturesDico / Obs.features) is not available')
     k = len(dico)
     if sorted(dico.values()) != list(range(k)):
         return 'listed names do not map one-to-one onto columns 0..k-1'
